@@ -24,6 +24,9 @@ static asn_per_data_t pd;
 static int key;
 static unsigned bit_at(const unsigned char *p, size_t q) { return (p[q >> 3] >> (7 - (q & 7))) & 1u; }
 static uint64_t field(size_t pos, int n) { uint64_t v = 0; int i; for(i = 0; i < 64; i++) if(i < n) v = (v << 1) | bit_at(vf_cb_log, pos + i); return v; }
+#ifdef VF_RB
+#define FIELD_RB(pos) field(pos, VF_RB)
+#endif
 static int bits_for(unsigned long range) { /* smallest b with range < 2^b */
 	int b = 0; int i; for(i = 0; i < 64; i++) if(range >> i) b = i + 1; return b;
 }
@@ -35,7 +38,14 @@ void h_NativeInteger_uper_constrained(void) {
 	unsigned long range = (unsigned long)ub - (unsigned long)lb;
 	asn_per_constraints_t ct; memset(&ct, 0, sizeof(ct));
 	ct.value.flags = APC_CONSTRAINED | (ext ? APC_EXTENSIBLE : 0);
-	ct.value.range_bits = bits_for(range); ct.value.effective_bits = ct.value.range_bits;
+#ifdef VF_RB
+	/* the range width is a constant of the obligation (one obligation per width class) */
+	__CPROVER_assume(VF_RB == 0 ? range == 0 : VF_RB == 64 ? (range >> 63) == 1 : ((range >> VF_RB) == 0 && (range >> (VF_RB - 1)) == 1));
+	ct.value.range_bits = VF_RB;
+#else
+	ct.value.range_bits = bits_for(range);
+#endif
+	ct.value.effective_bits = ct.value.range_bits;
 	ct.value.lower_bound = lb; ct.value.upper_bound = ub;
 	ct.size.flags = APC_UNCONSTRAINED; ct.size.range_bits = -1; ct.size.effective_bits = -1;
 	memset(&po, 0, sizeof(po)); po.buffer = po.tmpspace; po.nbits = 8 * sizeof(po.tmpspace); po.output = vf_cb; po.op_key = &key;
